@@ -35,6 +35,7 @@ ASSUMPTIONS = [
     "after a kill only 'untouched or completely fixed' is judged; after an injected OS error the reporting clause is recorded, not judged",
 ]
 PROBES = [
+    "hard_linked_documents",
     "shape:dirty-chain",
     "through_api",
     "two_faults_in_one_run",
@@ -105,6 +106,9 @@ def _request(sc, files, paths, plan=None, record_sites=False, world=None):
         "cpu": 30,
         "ops": [op],
     }
+    links = {alias: source for alias, source in (sc.get("links") or {}).items() if source in files}
+    if links:
+        request["links"] = links
     if plan:
         request["plan"] = plan
     if record_sites:
@@ -350,6 +354,10 @@ def generate(rng, tier, index):
         "tier": tier,
         "faults": [],
     }
+    if mode == "fix" and not use_api and rng.random() < 0.15:
+        # some documents are known under a second name (hard link outside the scanned set)
+        for name in rng.sample(sorted(files), rng.choice([1, len(files)])):
+            sc.setdefault("links", {})["zz_links/%s.alias" % name.replace("/", "_")] = name
     if rng.random() < 0.05:  # a natural parser failure somewhere in the list
         name = rng.choice(sorted(files))
         sc["files"][name] = {"b64": b64(carriers.NATURAL_PARSER_FAIL["natural_dash_tab"])}
@@ -557,7 +565,7 @@ def _judge(sc, fault, stats):
 
     # clause 4: no temporary files after an in-process fault
     if kind in ("cb", "parse", "prov", "undecodable", "oserror"):
-        new_in_work = sorted(set(work_after) - set(names))
+        new_in_work = sorted(set(work_after) - set(names) - set(sc.get("links") or {}))
         left = len(tmp_after) + len(new_in_work)
         if kind == "oserror" and site.split("/")[1] in ("remove", "rename") and left == 1:
             # the injected error was the refusal to remove/rename that very file
@@ -604,6 +612,8 @@ def evaluate(sc):
         stats["through_api"] += 1
     if sc.get("shape"):
         stats["shape:" + sc["shape"]] += 1
+    if sc.get("links"):
+        stats["hard_linked_documents"] += 1
     return {"violations": violations, "evals": evals, "digests": digests, "stats": dict(stats), "faults": dict(faults)}
 
 
